@@ -3,6 +3,8 @@
 (* handed to the (recording) scorer, the holder contents after save/load/concat in some order, what     *)
 (* the policy allowed, and what select_next_plate (or the CLI) returned.                                *)
 EXTENDS ScoreSelect, TraceLib
+CONSTANT Strict   \* TRUE: additionally the chunk boundaries (np.array_split) and the holder's entry order of ScoreSelect.tla (drift note);
+                  \* FALSE: only what C06 states (the verdict)
 VARIABLE tid
 T == Traces[tid]
 SetOf(q) == {q[x] : x \in 1..Len(q)}
@@ -15,13 +17,16 @@ Ok == LET obs == SetOf(T.observed)  bt == SetOf(T.batch)  cs == CandOf(obs, bt) 
           sizeOf(p) == IF bt \cap Plates = {} THEN Cardinality(RowsOf(p)) ELSE Cardinality({Fix.klass[x] : x \in Union(p, bt \cap Plates)})
           sc(p) == IF T.size_mode THEN sizeOf(p) ELSE T.score[p + 1]
           al == SetOf(T.allowed) IN
-      /\ Check(tid, 1, "chunk-plates", \A i \in 0..n - 1 : T.chunks[i + 1].plates = ChunkOf(cs, n, i))
+      /\ (Strict => Check(tid, 1, "chunk-plates", \A i \in 0..n - 1 : T.chunks[i + 1].plates = ChunkOf(cs, n, i)))
+      /\ Check(tid, 1, "only-candidates-are-scored", \A i \in 1..n : SetOf(T.chunks[i].plates) \subseteq SetOf(cs))
       /\ Check(tid, 1, "each-candidate-scored-once",
                \A p \in SetOf(cs) : Cardinality({<<i, y>> \in (1..n) \X (1..Len(cs)) : y <= Len(T.chunks[i].plates) /\ T.chunks[i].plates[y] = p}) = 1)
       /\ Check(tid, 1, "conditioned-rows", T.size_mode \/ \A i \in 1..n : \A y \in 1..Len(T.chunks[i].plates) :
                SetOf(T.chunks[i].rows[y]) \in CondChoices(T.chunks[i].plates[y], bt \cap Plates))
-      /\ Check(tid, 2, "holder-after-combine", T.holder = [x \in 1..Len(T.order_cat) |-> <<T.order_cat[x], sc(T.order_cat[x])>>])
-      /\ Check(tid, 2, "holder-holds-every-candidate-once", SetOf(T.order_cat) = SetOf(cs) /\ Len(T.order_cat) = Len(cs))
+      /\ (Strict => Check(tid, 2, "holder-after-combine", T.holder = [x \in 1..Len(T.order_cat) |-> <<T.order_cat[x], sc(T.order_cat[x])>>]))
+      /\ Check(tid, 2, "combined-scores-hold-every-candidate-once-with-its-score",
+               /\ Len(T.holder) = Len(cs) /\ {T.holder[x][1] : x \in 1..Len(T.holder)} = SetOf(cs)
+               /\ \A x \in 1..Len(T.holder) : T.holder[x][2] = sc(T.holder[x][1]))
       /\ Check(tid, 3, "allowed-are-candidates", al \subseteq SetOf(cs))
       /\ Check(tid, 3, "none-iff-nothing-allowed", (T.chosen = -1) <=> (al = {}))
       /\ Check(tid, 3, "chosen-allowed-and-minimal", T.chosen = -1 \/ (T.chosen \in al /\ \A q \in al : sc(q) >= sc(T.chosen)))
